@@ -352,6 +352,7 @@ pub fn c16_configs(thorough: bool) -> Vec<EpCfg> {
                 c.alph.peer_acks = vec![AckKind::Puback, AckKind::Pubrec, AckKind::Pubcomp, AckKind::Pubrel];
                 c.alph.reply_err = true;
                 c.alph.defer_pubrel = !auto;
+                c.alph.early_peer_traffic = true;
                 if ver == Ver::V5 {
                     c.connacks = vec![AckProf::basic(false), AckProf::basic(true), AckProf { rm: Some(2), ..AckProf::basic(true) }];
                     c.connects = vec![ConnProf::basic(true), ConnProf::basic(false), ConnProf { rm: Some(2), ..ConnProf::basic(false) }];
